@@ -17,6 +17,7 @@ import (
 	"io"
 	"net"
 	"net/http"
+	"net/url"
 	"os"
 	"sort"
 	"strconv"
@@ -157,6 +158,13 @@ type exRec struct {
 	layer            int
 	tlsSeen, tlsWant tlsView
 	hijView          tlsView // the TLS session of the connection a hijacker was handed
+	// session / context storage (api.go)
+	storedValue    bool
+	svWant, svSeen int
+	svLost         string
+	ctxValueOK     bool
+	// reused upstream connections (reuse.go)
+	dropped int
 	// early-answering origin (early.go)
 	earlyErr string
 }
@@ -169,6 +177,7 @@ type world struct {
 	dials   int
 	current string // id of the exchange being driven (sequential mode)
 	early   map[string]chan struct{} // closed when the origin has started to answer early (early.go)
+	burst   *burstRec                // the light records of a burst (burst.go)
 }
 
 func (w *world) rec(id string) *exRec {
@@ -210,6 +219,10 @@ func (c cloningRT) RoundTrip(req *http.Request) (*http.Response, error) {
 func (w *world) reqmod() martian.RequestModifier {
 	return martian.RequestModifierFunc(func(req *http.Request) error {
 		id := req.Header.Get(idHeader)
+		if k, ok := burstIndex(id); ok {
+			w.burstReqmod(k, req)
+			return nil
+		}
 		ctx := martian.NewContext(req)
 		w.mu.Lock()
 		r := w.rec(id)
@@ -233,11 +246,17 @@ func (w *world) reqmod() martian.RequestModifier {
 				o.ctxAfterEnd = true
 			}
 		}
+		if it != nil {
+			w.sessionValues(id, r, ctx)
+		}
 		w.mu.Unlock()
 		if it == nil {
 			return nil
 		}
+		apiCalls(it.s("api", ""), ctx)
 		switch it.s("rq", "pass") {
+		case "insec":
+			apiCalls("insec", ctx)
 		case "err":
 			return modErr(it.s("ek", "plain"), reqErrMark)
 		case "skip":
@@ -271,6 +290,10 @@ func (w *world) resmod() martian.ResponseModifier {
 		if res.Request != nil {
 			id = res.Request.Header.Get(idHeader)
 		}
+		if k, ok := burstIndex(id); ok {
+			w.burstResmod(k, res)
+			return nil
+		}
 		ctx := martian.NewContext(res.Request)
 		w.mu.Lock()
 		r := w.rec(id)
@@ -280,6 +303,8 @@ func (w *world) resmod() martian.ResponseModifier {
 		r.sameReq = res.Request == r.retained
 		if ctx != nil {
 			r.ctxRes = ctx.ID()
+			v, ok := ctx.Get(ctxValueKey)
+			r.ctxValueOK = ok && v == id
 		}
 		if res.Request != nil {
 			r.resReqWarn = len(res.Request.Header["Warning"])
@@ -291,6 +316,7 @@ func (w *world) resmod() martian.ResponseModifier {
 		if it == nil {
 			return nil
 		}
+		apiCalls(it.s("sapi", ""), ctx)
 		switch it.s("rs", "pass") {
 		case "err":
 			return modErr(it.s("sek", "plain"), resErrMark)
@@ -327,7 +353,7 @@ func reqHeaders(it *item) [][2]string {
 		}
 		hs = append(hs, [2]string{names[i], v})
 	}
-	return hs
+	return append(hs, bulkHeaders("X-Bulk", it.n("rhb", 0), it.s("rhs", "many"), seed)...)
 }
 
 func resHeaders(it *item) [][2]string {
@@ -342,7 +368,7 @@ func resHeaders(it *item) [][2]string {
 		}
 		hs = append(hs, [2]string{names[i], v})
 	}
-	return hs
+	return append(hs, bulkHeaders("Set-Cookie", it.n("ohb", 0), it.s("ohs", "many"), seed)...)
 }
 
 func chunked(b []byte, seed int) []byte {
@@ -376,6 +402,9 @@ func pathOf(id string, it *item) string {
 		return "/p" + id + "/../../up?x=/../y"
 	case 5:
 		return "/p" + id + "/a+b/~t/(1)!$,'*?k=v+w&sub=a%26b%3Dc"
+	}
+	if n := it.n("tl", 0); n > 0 { // a very long target
+		return "/p" + id + "/" + strings.Repeat("segment/", n/16) + "?q=" + id + "&pad=" + strings.Repeat("a", n/2)
 	}
 	return "/p" + id + "?q=" + id + "&x=%41+b"
 }
@@ -501,11 +530,14 @@ func (e *Ex) serveOrigin(l net.Listener, isTLS bool) {
 func (e *Ex) originConn(c net.Conn, isTLS bool) {
 	defer c.Close()
 	br := bufio.NewReader(c)
-	for {
+	for servedOnConn := 0; ; servedOnConn++ {
 		c.SetDeadline(time.Now().Add(20 * time.Second))
 		req, err := http.ReadRequest(br)
 		if err != nil {
 			return
+		}
+		if e.dropReused(req, servedOnConn) {
+			return // the origin gives up a connection that is being REUSED, without a word (reuse.go)
 		}
 		id := req.Header.Get(idHeader)
 		w := e.w
@@ -628,6 +660,8 @@ type Ex struct {
 	originTLSAddr string
 	sessions      []string
 	shaped        *trafficshape.Listener
+	dl            net.Listener // the downstream proxy (dsp.go)
+	downAddr      string
 	fl            net.Listener // the port of TLS-layer upstream faults (upfault.go)
 	faultAddr     string
 	ops           []string // the conn / item ops of the case, for a re-confirming second run
@@ -643,7 +677,7 @@ func New() *Ex {
 }
 
 func (e *Ex) Close() {
-	for _, l := range []net.Listener{e.pl, e.ol, e.otl, e.dead, e.echo, e.fl} {
+	for _, l := range []net.Listener{e.pl, e.ol, e.otl, e.dead, e.echo, e.fl, e.dl} {
 		if l != nil {
 			l.Close()
 		}
@@ -698,6 +732,7 @@ func (e *Ex) Do(op string) core.Result {
 		}
 		t0 := time.Now()
 		res := e.runConfirmed()
+		res.ModelOp = e.endHint()
 		if d := time.Since(t0); d > 400*time.Millisecond && os.Getenv("VERIF_PXY_SLOW") != "" {
 			fmt.Fprintf(os.Stderr, "SLOW %v conn=%v\n", d, e.conn)
 			for _, id := range e.ids {
@@ -707,6 +742,11 @@ func (e *Ex) Do(op string) core.Result {
 		return res
 	case "junk":
 		return e.junk(toks)
+	case "burst":
+		if e.w == nil {
+			e.w = &world{recs: map[string]*exRec{}, items: map[string]*item{}}
+		}
+		return e.runBurst(toks)
 	}
 	return core.Result{Impl: "bad-op"}
 }
@@ -735,6 +775,12 @@ func (e *Ex) start() {
 	}()
 	p := martian.NewProxy()
 	p.SetTimeout(30 * time.Second)
+	if e.conn["dsp"] == "1" { // CONNECTs are relayed to a downstream proxy; plain requests still go direct (Proxy is reset below)
+		e.dl = listen()
+		e.downAddr = e.dl.Addr().String()
+		go e.serveDownstream(e.dl)
+		p.SetDownstreamProxy(&url.URL{Scheme: "http", Host: e.downAddr})
+	}
 	if ms, err := strconv.Atoi(e.conn["to"]); err == nil && ms > 0 {
 		// a short idle timeout: a connection that stays busy must outlive it (the deadline is per request)
 		p.SetTimeout(time.Duration(ms) * time.Millisecond)
@@ -755,6 +801,10 @@ func (e *Ex) start() {
 	p.SetDial(func(network, addr string) (net.Conn, error) {
 		e.w.mu.Lock()
 		e.w.dials++
+		if e.downstreamDial(addr) {
+			e.w.mu.Unlock()
+			return nil, &net.OpError{Op: "dial", Net: network, Err: syscall.ECONNREFUSED}
+		}
 		if _, ok := e.w.items[e.w.current]; ok && strings.HasSuffix(addr, ".test:1") {
 			// a dial attempt toward a scripted target is upstream contact of the current exchange
 			r := e.w.rec(e.w.current)
@@ -934,6 +984,10 @@ func (e *Ex) runScenario() core.Result {
 			case "x":
 				cc.c.SetWriteDeadline(time.Now().Add(ioTimeout))
 				req := e.buildRequest(id, it)
+				// The request is written while the answer is being read: a write that fails or stalls (nobody
+				// reads the upload: a hijacker, a skipped or failed round trip, an early answer, and then the
+				// close) must not keep the harness from seeing what the peer did send and that it closed.
+				var send func() error
 				if e.conn["mode"] == "half" {
 					// this request's remainder plus the first half of the next one in ONE write; the
 					// client then waits for this response before sending the rest of the next request
@@ -946,28 +1000,43 @@ func (e *Ex) runScenario() core.Result {
 							out = append(append([]byte{}, out...), nreq[:halfSent]...)
 						}
 					}
-					if _, err := cc.c.Write(out); err != nil {
-						alive = false
-						continue
-					}
+					send = func() error { _, err := cc.c.Write(out); return err }
 				} else if e.conn["mode"] == "dribble" {
-					for i := 0; i < len(req); i += 7 {
-						j := i + 7
-						if j > len(req) {
-							j = len(req)
+					send = func() error {
+						for i := 0; i < len(req); i += 7 {
+							j := i + 7
+							if j > len(req) {
+								j = len(req)
+							}
+							if _, err := cc.c.Write(req[i:j]); err != nil {
+								return err
+							}
 						}
-						cc.c.Write(req[i:j])
+						return nil
 					}
 				} else if earlyOK(it) {
-					if err := e.sendGated(cc, req, id); err != nil {
-						alive = false
-						continue
-					}
-				} else if _, err := cc.c.Write(req); err != nil {
-					alive = false
-					continue
+					send = func() error { return e.sendGated(cc, req, id) }
+				} else {
+					send = func() error { _, err := cc.c.Write(req); return err }
+				}
+				wdone := make(chan error, 1)
+				if earlyOK(it) {
+					// the gated upload reads (peeks) the connection itself while it waits: it runs first
+					wdone <- send()
+				} else {
+					go func() { wdone <- send() }()
 				}
 				res, body, berr := cc.readResponse(it.s("m", "GET"))
+				var werr error
+				select {
+				case werr = <-wdone:
+				case <-time.After(ioTimeout):
+					cc.c.SetWriteDeadline(time.Now()) // unblock a writer nobody reads from
+					werr = <-wdone
+				}
+				if werr != nil {
+					core.Count("client:request-write-failed")
+				}
 				if res == nil {
 					alive = false
 					continue
@@ -1187,8 +1256,8 @@ func (e *Ex) report(open bool, left int, probeID string) core.Result {
 		if r.got && it.kind == "x" {
 			pvs, frs = r.pvSeen, r.frSeen
 		}
-		parts = append(parts, fmt.Sprintf("%d:rq=%d,up=%s,uptls=%s,rs=%d,wq=%d,wt=%d,ws=%d,st=%s,cm=%s,cp=%s,https=%s,sec=%s,tls=%s,hij=%s,tid=%d,pv=%s,fr=%s",
-			idx, r.reqmod, b01(r.upCount > 0 || r.dialed > 0), upt, r.resmod, wq, r.wt, r.ws, st, cm, cp, b01(r.https), b01(r.sec), b01(r.tlsAttached), hij, tid, pvs, frs))
+		parts = append(parts, fmt.Sprintf("%d:rq=%d,up=%s,uptls=%s,rs=%d,wq=%d,wt=%d,ws=%d,st=%s,cm=%s,cp=%s,https=%s,sec=%s,tls=%s,hij=%s,tid=%d,pv=%s,fr=%s,sv=%d",
+			idx, r.reqmod, b01(r.upCount > 0 || r.dialed > 0), upt, r.resmod, wq, r.wt, r.ws, st, cm, cp, b01(r.https), b01(r.sec), b01(r.tlsAttached), hij, tid, pvs, frs, r.svSeen))
 
 		// ---------------- property oracles (independent of the Lean model) ----------------
 		rq, rs := it.s("rq", "pass"), it.s("rs", "pass")
@@ -1235,6 +1304,14 @@ func (e *Ex) report(open bool, left int, probeID string) core.Result {
 			sess = r.sess
 		} else if r.sess != sess {
 			failf("c02:session-not-shared", "exchange %d has session %s, the connection started with %s", idx, r.sess, sess)
+		}
+		// the session's storage is the connection's: what earlier exchanges stored is still there (across
+		// CONNECT, TLS upgrade, nested tunnels); the context's storage is the exchange's
+		if r.svSeen != r.svWant {
+			failf("c02:session-value-lost", "exchange %d: of the %d values earlier exchanges of this connection stored in the session only %d are readable (lost:%s)", idx, r.svWant, r.svSeen, r.svLost)
+		}
+		if r.resmod == 1 && r.ctxRes != "" && r.ctxRes == r.ctxReq && !r.ctxValueOK {
+			failf("c02:context-value-lost", "exchange %d: the value the request modifier stored in the context is not there for the response modifier", idx)
 		}
 		if r.ctxAfterEnd {
 			failf("c02:context-retrievable-after-exchange", "exchange %d: its context was still retrievable while a later request of the same connection was being handled", idx)
@@ -1287,6 +1364,14 @@ func (e *Ex) report(open bool, left int, probeID string) core.Result {
 			}
 		}
 		okOrigin := it.kind == "x" && it.s("o", "ok") == "ok" && rq != "skip" && rq != "errskip" && rq != "hijack" && rs != "hijack"
+		if r.dropped > 0 && !replayable(it) {
+			// the origin dropped a reused connection under a request the transport cannot replay: an upstream
+			// failure, to be answered 502 (C03); a replayable one must still get the origin's answer
+			okOrigin = false
+			if rq == "pass" && rs != "hijack" && (!r.got || r.st != 502 || r.wt < 1) {
+				failf("c03:no-502", "exchange %d: origin dropped the reused connection under a request that cannot be replayed; client got=%v status=%d warnings=%d", idx, r.got, r.st, r.wt)
+			}
+		}
 		if okOrigin && r.got {
 			if r.st != it.n("st", 200) {
 				failf("c01:status", "exchange %d: client got %d, origin sent %d", idx, r.st, it.n("st", 200))
@@ -1326,6 +1411,11 @@ func (e *Ex) report(open bool, left int, probeID string) core.Result {
 			}
 			if r.stalled {
 				failf("c03:no-close-after-truncation", "exchange %d: the incomplete response was not followed by connection close (the client stalled inside its frame)", idx)
+			}
+		}
+		if k := it.s("dsr", ""); it.kind == "cblind" && isDownstreamComplete(k) && rq != "hijack" && rs != "hijack" {
+			if !r.got || (r.st != dsrStatus(k) && r.st != 502) {
+				failf("c03:connect-refusal-lost", "exchange %d: the downstream proxy answered the CONNECT with %d; the client got=%v status=%d", idx, dsrStatus(k), r.got, r.st)
 			}
 		}
 		if it.kind == "cblind" && it.s("dial", "1") == "0" && rq != "hijack" && rs != "hijack" {
